@@ -1129,10 +1129,17 @@ func (p *PairV2) AddLastSwapStepWithOrders(amount0In, amount1Out *big.Int, buy b
 		return p.reverse().AddLastSwapStepWithOrders(big.NewInt(0).Neg(amount1Out), big.NewInt(0).Neg(amount0In), !buy).Reverse()
 	}
 
-	// released by defer: the calculations below panic on inconsistent amounts (for instance a quote
-	// taken before the pool changed), and a caller that recovers must not leave the book locked
+	// the calculations below panic on inconsistent amounts (for instance a quote taken before the pool
+	// changed), and a caller that recovers must not leave the book locked; on the normal path the lock
+	// is released before the copy marks its orders (that takes the pool map's lock, which Commit holds
+	// while it waits for this one)
 	p.lockOrders.Lock()
-	defer p.lockOrders.Unlock()
+	locked := true
+	defer func() {
+		if locked {
+			p.lockOrders.Unlock()
+		}
+	}()
 
 	var orders []*Limit
 	if buy {
@@ -1271,6 +1278,9 @@ func (p *PairV2) AddLastSwapStepWithOrders(amount0In, amount1Out *big.Int, buy b
 			mu:           &sync.RWMutex{},
 		})
 	}
+
+	locked = false
+	p.lockOrders.Unlock()
 
 	pair.updateOrders(oo)
 
